@@ -302,6 +302,11 @@ def run_base_capa(
     opt_anomaly_starts = np.repeat(np.nan, n)
     starts = np.array([], dtype=int)
 
+    # A start pruned at time t is only guaranteed to be beaten by the start t + 1,
+    # which is not admissible before min_segment_length - 1 more observations have
+    # been seen. Pruning decisions by saving are therefore delayed.
+    pending_pruned_starts = []
+
     ts = np.arange(n)
     for t in ts:
         # Collective anomalies
@@ -342,9 +347,12 @@ def run_base_capa(
         # Pruning the admissible starts
         penalty_sum = collective_alpha + collective_betas.sum()
         saving_too_low = candidate_savings + penalty_sum < opt_savings[t + 1]
+        pending_pruned_starts.append(starts[saving_too_low])
+        if len(pending_pruned_starts) >= min_segment_length:
+            pruned_starts = pending_pruned_starts.pop(0)
+            starts = starts[~np.isin(starts, pruned_starts)]
         too_long_segment = starts < t - max_segment_length + 2
-        prune = saving_too_low | too_long_segment
-        starts = starts[~prune]
+        starts = starts[~too_long_segment]
 
     collective_anomalies, point_anomalies = get_anomalies(opt_anomaly_starts)
     return opt_savings[1:], collective_anomalies, point_anomalies
